@@ -25,6 +25,19 @@ var concTexts = []string{
 	"module c { namespace urn:c; prefix c; leaf plain { type int8; default 5; } }",
 }
 
+// Tiny texts (indices 3..): executions short enough for a deviation bound to be completed (a deviation
+// is any choice other than the default one - the lexer / parser hand-over gives a free choice at every
+// token, so a preemption bound alone leaves 3^tokens schedules), so that for them the family is
+// exhaustive within the bound (3 deviations quick, 4 thorough).
+const concTinyFrom = 3
+
+func init() {
+	concTexts = append(concTexts,
+		"module t { prefix \"p\" + 'q'; }",
+		"module u { leaf l; }",
+	)
+}
+
 type concRec struct {
 	A, B    int
 	Choices []int `json:"choices"`
@@ -101,19 +114,31 @@ func runConcurrent(c *engine.Ctx) {
 	// (an execution has some thousand scheduling points - every access to a package-level variable
 	// counts - so even preemption bound 1 is not finished: the first cap schedules in DFS order are
 	// explored and the cap is reported; this family is CAPPED, not exhaustive)
-	bound, cap := 1, int64(300)
+	bound, cap, tinyBound := 1, int64(300), 3
 	if !c.Quick() {
-		bound, cap = 1, 20000
+		bound, cap, tinyBound = 1, 20000, 4
 	}
 	for ai := range concTexts {
 		for bi := ai; bi < len(concTexts); bi++ {
 			id := fmt.Sprintf("concurrent:%d:%d", ai, bi)
+			if (ai >= concTinyFrom) != (bi >= concTinyFrom) {
+				continue
+			}
 			if !c.Owns(id) || !c.Case(id) {
 				continue
 			}
+			bound, cap := bound, cap
+			if ai >= concTinyFrom {
+				bound, cap = tinyBound, 0
+			}
 			seen := map[string]bool{}
-			st := engine.ExploreSchedules(bound, cap, func(choices []int) *verifrt.Sched {
+			explore := engine.ExploreSchedules
+			if ai >= concTinyFrom {
+				explore = engine.ExploreScheduleDeviations
+			}
+			st := explore(bound, cap, func(choices []int) *verifrt.Sched {
 				vs, s := checkConcurrent(ai, bi, choices)
+				c.Add("executions", 1) // (also tells the watchdog that the case is alive)
 				for _, v := range vs {
 					if !seen[v.Key] {
 						seen[v.Key] = true
@@ -127,6 +152,9 @@ func runConcurrent(c *engine.Ctx) {
 			c.Add("schedules", st.Executions)
 			c.Nontrivial()
 			c.Outcome(fmt.Sprintf("concurrent:truncated=%v:viol=%v", st.Truncated, len(seen) > 0))
+			if ai >= concTinyFrom {
+				c.Note(fmt.Sprintf("concurrent tiny pair %d/%d: all %d schedules with <= %d deviations from the default schedule explored (<= %d scheduling points each)", ai, bi, st.Executions, bound, st.MaxPoints))
+			}
 			if st.Truncated {
 				c.Note(fmt.Sprintf("concurrent pair %d/%d: schedule cap %d reached (preemption bound %d)", ai, bi, cap, bound))
 			}
